@@ -226,11 +226,21 @@ def run(shard, ctx):
                     hist.append(("remove_notes", lst))
                 elif op == 10:
                     f = lambda: nc + n; m.add(n); hist.append(("+", n))
-                else:
+                elif rng.random() < 0.5:
                     lst = [Note(rng.choice(NAMES16), rng.randint(2, 6)), [rng.choice(NAMES16), 3, {"velocity": 9}]]
                     m.add(lst[0].name, lst[0].octave), m.add(lst[1][0], 3)
                     f = lambda: nc.add_notes(lst)
                     hist.append(("add_notes mixed", repr(lst)))
+                else:
+                    # other iterables of names: a tuple, a one-shot iterator
+                    names_ = [rng.choice(NAMES16) for _ in range(rng.randint(1, 3))]
+                    [m.add(x) for x in names_]
+                    if rng.random() < 0.5:
+                        f = lambda: nc.add_notes(tuple(names_))
+                        hist.append(("add_notes tuple", names_))
+                    else:
+                        f = lambda: nc.add_notes(iter(names_))
+                        hist.append(("add_notes iterator", names_))
                 st, r = ctx.call(f)
                 if st != "ok":
                     ctx.check("history: every add/remove form is accepted", False, {"history": hist}, None, repr(r),
